@@ -219,6 +219,9 @@ pub struct Block {
     pub header: Header,
     pub auxpow: Option<AuxPow>,
     pub txs: Vec<Tx>,
+    /// CompactSize form of the block's transaction count (0 shortest, 1 0xfd form, 2 0xfe form, 3 0xff form): the same count,
+    /// stored wider than necessary (no hash covers it; the record's length field does)
+    pub txcount_wide: u8,
 }
 
 pub fn merkle_root(mut level: Vec<H256>) -> H256 {
@@ -247,7 +250,7 @@ impl Block {
     /// Build a block on `prev`, computing the merkle root from the txs.
     pub fn build(version: u32, prev: H256, time: u32, bits: u32, nonce: u32, txs: Vec<Tx>) -> Block {
         let merkle = merkle_root(txs.iter().map(|t| t.txid()).collect());
-        Block { header: Header { version, prev, merkle, time, bits, nonce }, auxpow: None, txs }
+        Block { header: Header { version, prev, merkle, time, bits, nonce }, auxpow: None, txs, txcount_wide: 0 }
     }
     pub fn fix_merkle(&mut self) {
         self.header.merkle = merkle_root(self.txs.iter().map(|t| t.txid()).collect());
@@ -261,7 +264,7 @@ impl Block {
         if let Some(a) = &self.auxpow {
             v.extend(a.ser());
         }
-        v.extend(compact_size(self.txs.len() as u64));
+        v.extend(compact_size_wide(self.txs.len() as u64, self.txcount_wide));
         for t in &self.txs {
             v.extend(t.ser());
         }
